@@ -75,7 +75,7 @@ MODE_THEOREMS = {
     "poll": [("UrcuVerif.Props.SrcPoll", lambda n: True)],
     "reg": [("UrcuVerif.Props.SrcReg", lambda n: True)],
     "fork": [("UrcuVerif.Props.SrcFork", lambda n: True)],
-    "lfht": [("UrcuVerif.Props.SrcLfht", lambda n: True)],
+    "lfht": [("UrcuVerif.Props.SrcLfht", lambda n: True), ("UrcuVerif.Props.SrcLfht2", lambda n: True)],
 }
 
 
@@ -83,7 +83,7 @@ MODE_THEOREMS = {
 INTEGRATED = {"UrcuVerif.Props.SrcRead", "UrcuVerif.Props.SrcSync", "UrcuVerif.Props.SrcStack", "UrcuVerif.Props.SrcQueue",
               "UrcuVerif.Props.SrcDefer", "UrcuVerif.Props.SrcFutex", "UrcuVerif.Props.SrcPoll", "UrcuVerif.Props.SrcWq",
               "UrcuVerif.Props.SrcCallRcu", "UrcuVerif.Props.SrcLfht",
-              "UrcuVerif.Props.SrcSync2", "UrcuVerif.Props.SrcWq2", "UrcuVerif.Props.SrcReg", "UrcuVerif.Props.SrcFork"}
+              "UrcuVerif.Props.SrcSync2", "UrcuVerif.Props.SrcWq2", "UrcuVerif.Props.SrcReg", "UrcuVerif.Props.SrcFork", "UrcuVerif.Props.SrcLfht2"}
 
 
 def mode_theorems(mode):
